@@ -253,6 +253,47 @@ def pickleObj (s : St) (o : Nat) : St :=
 def makeReadOnly (s : St) (objs : List Nat) : St :=
   { s with readOnly := fun o => if o ∈ objs then true else s.readOnly o }
 
+/-! ### `makeParametersReadOnly` as a walk over the reactor's child lists -/
+
+/-- `obj.p.readOnly = True` (`__setattr__` on a collection that is not read-only yet simply stores it; on one that
+already is, it raises "cannot be made writeable" -- the flag stays True either way) -/
+def setRO (s : St) (o : Nat) : St := { s with readOnly := upd s.readOnly o true }
+
+/-- `obj.p.readOnly = False`: stored on a writable collection, refused on a read-only one -/
+def unlock (s : St) (o : Nat) : St × Bool :=
+  if s.readOnly o then (s, false) else ({ s with readOnly := upd s.readOnly o false }, true)
+
+/-- `r.iterChildren(deep=True)` over child lists `kids` (`Composite._iterChildren`: the direct children, then each
+child's own deep traversal; C01's `iterC` with the always-true checker) -/
+def iterDeep (kids : Nat → List Nat) : Nat → Nat → List Nat
+  | 0, _ => []
+  | f + 1, n => kids n ++ (kids n).flatMap (iterDeep kids f)
+
+/-- `reactorParameters.makeParametersReadOnly(r)`:
+`r.p.readOnly = True; for child in r.iterChildren(deep=True): child.p.readOnly = True`.
+The reactor's children are ALL its systems (core, spent fuel pool, other ex-core structures). -/
+def makeReadOnlyTree (s : St) (kids : Nat → List Nat) (fuel : Nat) (r : Nat) : St :=
+  (iterDeep kids fuel r).foldl setRO (setRO s r)
+
+/-- whatever may be tried on a read-only reactor afterwards -/
+inductive Attempt where
+  | set (o x v : Nat)                        -- `o.p[x] = v` / `setattr` / `p.update`
+  | setC (o x v : Nat) (g : (Nat → Nat) → Nat → Option ((Nat → Nat) × List Nat))   -- a custom setter
+  | unlock (o : Nat)                         -- `o.p.readOnly = False`
+  | enter (objs : List Nat)                  -- opening a retain-state scope (`backUp` assigns `_backup`)
+
+/-- `StateRetainer.__enter__` on a subtree containing a read-only collection: the first `p.backUp()` that meets
+one raises; the driver and the harness see a refusal (objects backed up before it are not modelled: the order is
+root first, and a read-only reactor is read-only from the root down) -/
+def tryEnter (s : St) (objs : List Nat) : St × Bool :=
+  if objs.any s.readOnly then (s, false) else (enter s objs, true)
+
+def attempt (s : St) : Attempt → St × Bool
+  | .set o x v => setP s o x v
+  | .setC o x v g => setC s g o x v
+  | .unlock o => unlock s o
+  | .enter objs => tryEnter s objs
+
 /-! ### programs: assignments and (nested) scopes -/
 
 inductive Prog where
